@@ -6,11 +6,15 @@ import (
 	"crypto/rand"
 	"fmt"
 	"math/big"
+	"runtime"
+	"sort"
 	"strings"
 	"sync"
 	"testing"
+	"time"
 
 	"github.com/btcsuite/btcd/btcec/v2"
+	"github.com/ipfs/go-log"
 	pubsub "github.com/libp2p/go-libp2p-pubsub"
 	pubsubpb "github.com/libp2p/go-libp2p-pubsub/pb"
 	libp2pcrypto "github.com/libp2p/go-libp2p/core/crypto"
@@ -587,5 +591,175 @@ func FuzzVerif_C18_Envelope(f *testing.F) {
 				t.Fatalf("delivered type %q payload %+v", m.Type(), m.Payload())
 			}
 		}
+	})
+}
+
+// c18WorkerGoroutines inspects the goroutines of the process (a consistent
+// snapshot): alive = message workers of the given channel that exist, active =
+// those of them that are not parked in their select (they may hold an
+// envelope, wherever they are).
+func c18WorkerGoroutines(ch *channel) (alive, active int) {
+	mine := fmt.Sprintf("(*channel).incomingMessageWorker(%p", ch)
+	buf := make([]byte, 1<<20)
+	for {
+		n := runtime.Stack(buf, true)
+		if n < len(buf) {
+			buf = buf[:n]
+			break
+		}
+		buf = make([]byte, 2*len(buf))
+	}
+	for _, g := range strings.Split(string(buf), "\n\n") {
+		// only the workers of this channel (the receiver pointer is printed
+		// as the first argument of the frame)
+		worker := strings.Contains(g, mine)
+		if worker {
+			alive++
+		}
+		header, _, _ := strings.Cut(g, "\n")
+		parked := strings.Contains(header, "[select") || strings.Contains(header, "[chan receive")
+		if worker && !parked {
+			active++
+		}
+	}
+	return
+}
+
+// TestVerif_C18_WorkerPath feeds envelopes the way the pubsub subscription
+// loop does: into the channel's incoming queue, served by the real
+// incomingMessageWorker goroutines (messageWorkers of them, as handleMessages
+// starts). The stream holds MORE bad envelopes than there are workers
+// (unknown types, undecodable payloads, malformed and mismatching identities)
+// interleaved with valid ones, and at least one valid envelope after the last
+// bad one. Dropping a bad envelope must not affect the others: every valid
+// envelope is delivered, correctly attributed, and nothing else is.
+//
+// The verdict is taken only in a final state that is proven, not timed: either
+// the queue is empty and every message worker is parked in its select, or no
+// message worker is left at all (then nobody can ever serve the queue). A
+// bounded wait that ends in neither state is VERIF-INCONCLUSIVE.
+func TestVerif_C18_WorkerPath(t *testing.T) {
+	st := verifkit.New("C18", "TestVerif_C18_WorkerPath")
+	defer st.Flush()
+	secp, others := c18Pool()
+	// the workers log every rejected envelope; keep the captured output small
+	_ = log.SetLogLevel("keep-libp2p", "fatal")
+	rapid.Check(t, func(t *rapid.T) {
+		rig := c18NewRig(rapid.IntRange(1, 2).Draw(t, "receivers"))
+		rig.ch.incomingMessageQueue = make(chan *pubsub.Message, incomingMessageThrottle)
+		ctx, cancel := context.WithCancel(context.Background())
+		defer cancel()
+		for i := 0; i < messageWorkers; i++ {
+			go rig.ch.incomingMessageWorker(ctx)
+		}
+		// all workers must be seen inside incomingMessageWorker before the
+		// stream starts: only then does "none is left" later mean they ended
+		if !verifkit.Eventually(30*time.Second, func() bool {
+			alive, _ := c18WorkerGoroutines(rig.ch)
+			return alive == messageWorkers
+		}) {
+			alive, _ := c18WorkerGoroutines(rig.ch)
+			t.Fatalf("VERIF-INCONCLUSIVE: %d of %d message workers seen running within 30s", alive, messageWorkers)
+		}
+		nBad := messageWorkers + rapid.IntRange(1, 2*messageWorkers).Draw(t, "extraBad")
+		nGood := rapid.IntRange(1, 12).Draw(t, "good")
+		// positions of the good envelopes among the bad ones; the last good one
+		// always comes after every bad one
+		goodAfter := make([]int, nGood) // number of bad envelopes before it
+		for i := range goodAfter {
+			goodAfter[i] = rapid.IntRange(0, nBad).Draw(t, "goodAfter")
+		}
+		goodAfter[nGood-1] = nBad
+		sort.Ints(goodAfter)
+		var stream []*c18Envelope
+		classes := map[string]bool{}
+		gi := 0
+		for b := 0; b <= nBad; b++ {
+			for gi < nGood && goodAfter[gi] == b {
+				e := c18GenEnvelope(t, secp, others)
+				for !e.deliver {
+					e = c18GenEnvelope(t, secp, others)
+				}
+				stream = append(stream, e)
+				gi++
+			}
+			if b < nBad {
+				e := c18GenEnvelope(t, secp, others)
+				for e.deliver || e.mayDeliv {
+					e = c18GenEnvelope(t, secp, others)
+				}
+				classes["class:"+e.class] = true
+				stream = append(stream, e)
+			}
+		}
+		// unique sequence numbers identify the envelopes at the receivers
+		for i, e := range stream {
+			e.seqno = uint64(i + 1)
+			rig.ch.incomingMessageQueue <- &pubsub.Message{Message: &pubsubpb.Message{From: []byte(e.outer), Data: c18EncodeEnvelope(e)}}
+		}
+		// wait for a proven final state
+		deadline := time.Now().Add(30 * time.Second)
+		final := ""
+		for i := 0; final == ""; i++ {
+			if len(rig.ch.incomingMessageQueue) == 0 {
+				// every worker parked in its select while the queue is empty:
+				// nobody holds an envelope, everything has been dealt with
+				if _, active := c18WorkerGoroutines(rig.ch); active == 0 && len(rig.ch.incomingMessageQueue) == 0 {
+					final = "queue served"
+					break
+				}
+			} else if i > 20 {
+				if alive, _ := c18WorkerGoroutines(rig.ch); alive == 0 {
+					final = fmt.Sprintf("no message worker left, %d envelopes still queued", len(rig.ch.incomingMessageQueue))
+					break
+				}
+			}
+			if time.Now().After(deadline) {
+				alive, busy := c18WorkerGoroutines(rig.ch) // busy = not parked
+				t.Fatalf("VERIF-INCONCLUSIVE: incoming queue not served within 30s (queued %d, workers alive %d, busy %d)", len(rig.ch.incomingMessageQueue), alive, busy)
+			}
+			if i < 50 {
+				runtime.Gosched()
+			} else {
+				time.Sleep(200 * time.Microsecond)
+			}
+		}
+		got := rig.drain()
+		for ri, msgs := range got {
+			bySeq := map[uint64]int{}
+			for _, m := range msgs {
+				bySeq[m.Seqno()]++
+				if m.Seqno() == 0 || m.Seqno() > uint64(len(stream)) {
+					t.Fatalf("receiver %d got a message with unknown seqno %d", ri, m.Seqno())
+				}
+				e := stream[m.Seqno()-1]
+				if !e.deliver {
+					t.Fatalf("receiver %d: envelope %d of class %s was delivered, must be dropped", ri, m.Seqno(), e.class)
+				}
+				if why := c18CheckDelivered(e, m); why != "" {
+					t.Fatalf("receiver %d: envelope %d: %s", ri, m.Seqno(), why)
+				}
+			}
+			missing := 0
+			first := 0
+			for i, e := range stream {
+				if e.deliver && bySeq[uint64(i+1)] != 1 {
+					if missing == 0 {
+						first = i + 1
+					}
+					missing++
+				}
+			}
+			if missing > 0 {
+				t.Fatalf("receiver %d: %d of %d valid envelopes were not delivered exactly once (first: envelope %d of %d, %d copies) although they went through the same queue as %d rejected envelopes; %d message workers configured; final state: %s",
+					ri, missing, nGood, first, len(stream), bySeq[uint64(first)], nBad, messageWorkers, final)
+			}
+		}
+		var ls []string
+		for c := range classes {
+			ls = append(ls, c)
+		}
+		ls = append(ls, fmt.Sprintf("bad>=2x-workers:%v", nBad >= 2*messageWorkers))
+		st.Case(true, fmt.Sprintf("workers=%d bad=%d good=%d goodAfter=%v", messageWorkers, nBad, nGood, goodAfter), ls...)
 	})
 }
